@@ -156,6 +156,20 @@ Qed.
 Lemma can_receive_send cf m rq : can_receive cf m rq = can_send cf m rq.
 Proof. reflexivity. Qed.
 
+(* ---- the no-owner branch (errors, or hold for an activation) and the release of held messages ---- *)
+Lemma no_owner_props cf st c m :
+  let st' := fst (no_owner cf st c m) in let o := snd (no_owner cf st c m) in
+  st_conns st' = st_conns st /\ st_next st' = st_next st /\ st_names st' = st_names st /\ st_now st' = st_now st /\
+  st_pend st' = st_pend st /\ st_full st' = st_full st /\ st_rules st' = st_rules st /\
+  (o = [] \/ exists e, o = [(c, OErr e (m_serial m))] /\ e <> ENoReply).
+Proof.
+  unfold no_owner. destruct (m_dest m) as [u|n]; cbn [fst snd].
+  - repeat split; auto. right. destruct (m_noauto m); eexists; split; eauto; discriminate.
+  - destruct (negb (m_noauto m) && activatable n).
+    + destruct (can_send cf m false); cbn [fst snd]; repeat split; auto. right. eexists; split; eauto; discriminate.
+    + cbn [fst snd]. repeat split; auto. right. destruct (m_noauto m); eexists; split; eauto; discriminate.
+Qed.
+
 Definition fwd_out (cf : cfg) (st : state) (c r : N) (m : msg) : out := (r, OFwd c m) :: eav_out cf st c r m.
 
 Lemma eav_out_in cf st c r m x : In x (eav_out cf st c r m) -> snd x = OEav c m.
@@ -183,19 +197,21 @@ Qed.
 
 Lemma dispatch_shape cf st c m st' o :
   dispatch cf st c m = (st', o) ->
-  (exists r, resolve st (m_dest m) = Some r /\ o = fwd_out cf st c r m) \/ (exists e, o = [(c, OErr e (m_serial m))]).
+  (exists r, resolve st (m_dest m) = Some r /\ o = fwd_out cf st c r m) \/ (exists e, o = [(c, OErr e (m_serial m))]) \/
+  (o = [] /\ resolve st (m_dest m) = None).
 Proof.
-  unfold dispatch. destruct (resolve st (m_dest m)) as [r|]; [|intros H; inversion H; right; eauto].
-  destruct ((0 <? m_nfds m) && negb (conn_fds st r)); [intros H; inversion H; right; eauto|].
+  unfold dispatch, deliver. destruct (resolve st (m_dest m)) as [r|];
+    [|pose proof (no_owner_props cf st c m) as NP; destruct (no_owner cf st c m) as [stn on]; cbn [fst snd] in NP; destruct NP as (N1 & N2 & N3 & N4 & N5 & N6 & N7 & N8); intros H; inversion H; subst; destruct N8 as [->|(e & -> & _)]; right; [right; auto|left; eauto]].
+  destruct ((0 <? m_nfds m) && negb (conn_fds st r)); [intros H; inversion H; right; left; eauto|].
   destruct (check_security_policy cf (st_now st) (st_pend st) c r m (is_full st r)) as [pl res].
-  destruct res as [e|]; intros H; inversion H; [right|left]; eauto.
+  destruct res as [e|]; intros H; inversion H; [right; left|left]; eauto.
 Qed.
 
 Lemma dispatch_frame cf st c m st' o :
   dispatch cf st c m = (st', o) ->
   st_conns st' = st_conns st /\ st_next st' = st_next st /\ st_names st' = st_names st /\ st_now st' = st_now st.
 Proof.
-  unfold dispatch. destruct (resolve st (m_dest m)) as [r|]; [|intros H; inversion H; auto].
+  unfold dispatch, deliver. destruct (resolve st (m_dest m)) as [r|]; [|pose proof (no_owner_props cf st c m) as NP; destruct (no_owner cf st c m) as [stn on]; cbn [fst snd] in NP; destruct NP as (N1 & N2 & N3 & N4 & N5 & N6 & N7 & N8); intros H; inversion H; subst; auto].
   destruct ((0 <? m_nfds m) && negb (conn_fds st r)); [intros H; inversion H; auto|].
   destruct (check_security_policy cf (st_now st) (st_pend st) c r m (is_full st r)) as [pl res].
   destruct res as [e|]; intros H; inversion H; auto.
@@ -206,7 +222,7 @@ Lemma noreply_opens_nothing cf st c m st' o :
   m_noreply m = true -> step cf st (ESend c m) = (st', o) -> forall p, In p (st_pend st') -> In p (st_pend st).
 Proof.
   intros Hn. unfold step. destruct (negb (wf_event st (ESend c m))); [intros H; inversion H; auto|].
-  unfold dispatch. destruct (resolve st (m_dest m)) as [r|]; [|intros H; inversion H; auto].
+  unfold dispatch, deliver. destruct (resolve st (m_dest m)) as [r|]; [|pose proof (no_owner_props cf st c m) as NP; destruct (no_owner cf st c m) as [stn on]; cbn [fst snd] in NP; destruct NP as (N1 & N2 & N3 & N4 & N5 & N6 & N7 & N8); intros H; inversion H; subst; rewrite N5; auto].
   destruct ((0 <? m_nfds m) && negb (conn_fds st r)); [intros H; inversion H; auto|].
   destruct (check_security_policy cf (st_now st) (st_pend st) c r m (is_full st r)) as [pl res] eqn:C.
   assert (Hs : forall p, In p pl -> In p (st_pend st)).
@@ -237,7 +253,7 @@ Lemma requested_only_state cf st c m st' o a :
   exists l1 p l2, st_pend st = l1 ++ p :: l2 /\ pend_match a c (m_rserial m) p = true /\
                   (forall q, In q (st_pend st') -> In q (l1 ++ l2) \/ (is_call m = true /\ q = mkPend c (Some a) (m_serial m) (st_now st))).
 Proof.
-  intros Hr Hs. unfold dispatch. destruct (resolve st (m_dest m)) as [r|] eqn:Rs; [|intros H; inversion H; subst; simpl; discriminate].
+  intros Hr Hs. unfold dispatch, deliver. destruct (resolve st (m_dest m)) as [r|] eqn:Rs; [|pose proof (no_owner_props cf st c m) as NP; destruct (no_owner cf st c m) as [stn on]; cbn [fst snd] in NP; destruct NP as (N1 & N2 & N3 & N4 & N5 & N6 & N7 & N8); intros H; inversion H; subst; destruct N8 as [->|(e & -> & _)]; simpl; discriminate].
   destruct ((0 <? m_nfds m) && negb (conn_fds st r)); [intros H; inversion H; subst; simpl; discriminate|].
   destruct (check_security_policy cf (st_now st) (st_pend st) c r m (is_full st r)) as [pl res] eqn:C.
   destruct res as [e|]; intros H; inversion H; subst; [simpl; discriminate|].
@@ -260,7 +276,7 @@ Lemma unrequested_refused cf st c m r :
   (forall p, In p (st_pend st) -> pend_match r c (m_rserial m) p = false) ->
   dispatch cf st c m = (st, [(c, OErr EAccessDenied (m_serial m))]).
 Proof.
-  intros Hr Hs Rs Hfd Hno. unfold dispatch. rewrite Rs, Hfd. unfold check_security_policy.
+  intros Hr Hs Rs Hfd Hno. unfold dispatch, deliver. rewrite Rs, Hfd. unfold check_security_policy.
   apply N.eqb_neq in Hs. rewrite Hs. apply check_reply_none in Hno. rewrite Hno.
   unfold can_send. rewrite Hr, Hs. simpl. rewrite set_pend_same. reflexivity.
 Qed.
@@ -286,6 +302,60 @@ Proof.
   intros a'. pose proof (check_reply_count _ _ _ _ _ a' R). specialize (Hl a'). lia.
 Qed.
 
+(* ---- bus_dispatch_matches towards a given recipient, and the release of held messages: what they leave alone ---- *)
+Definition same_frame (st st' : state) : Prop :=
+  st_conns st' = st_conns st /\ st_next st' = st_next st /\ st_names st' = st_names st /\ st_now st' = st_now st /\
+  st_full st' = st_full st /\ st_rules st' = st_rules st.
+
+Lemma deliver_frame cf st c r m : same_frame st (fst (deliver cf st c r m)) /\ st_held (fst (deliver cf st c r m)) = st_held st.
+Proof.
+  unfold deliver, same_frame. destruct ((0 <? m_nfds m) && negb (conn_fds st r)); [cbn [fst]; tauto|].
+  destruct (check_security_policy cf (st_now st) (st_pend st) c r m (is_full st r)) as [pl [e|]]; cbn [fst]; simpl; tauto.
+Qed.
+
+Lemma deliver_count cf st c r m :
+  (forall a, count_get a (st_pend st) <= max_replies cf) -> forall a, count_get a (st_pend (fst (deliver cf st c r m))) <= max_replies cf.
+Proof.
+  intros Hl a. unfold deliver. destruct ((0 <? m_nfds m) && negb (conn_fds st r)); [apply Hl|].
+  destruct (check_security_policy cf (st_now st) (st_pend st) c r m (is_full st r)) as [pl res] eqn:C.
+  pose proof (csp_count _ _ _ _ _ _ _ _ _ a Hl C). destruct res; auto.
+Qed.
+
+Lemma release_held_frame cf l r : forall st, same_frame st (fst (release_held cf st l r)) /\ st_held (fst (release_held cf st l r)) = st_held st.
+Proof.
+  induction l as [|[c m] l IH]; intros st; simpl; [unfold same_frame; tauto|].
+  pose proof (deliver_frame cf st c r m) as [F H]. destruct (deliver cf st c r m) as [st1 o1]. cbn [fst] in *.
+  specialize (IH st1). destruct (release_held cf st1 l r) as [st2 o2]. cbn [fst] in *. destruct IH as [F2 H2].
+  unfold same_frame in *. intuition congruence.
+Qed.
+
+Lemma release_held_count cf l r : forall st,
+  (forall a, count_get a (st_pend st) <= max_replies cf) -> forall a, count_get a (st_pend (fst (release_held cf st l r))) <= max_replies cf.
+Proof.
+  induction l as [|[c m] l IH]; intros st Hl a; simpl; [apply Hl|].
+  pose proof (deliver_count cf st c r m Hl) as H1. destruct (deliver cf st c r m) as [st1 o1]. cbn [fst] in *.
+  specialize (IH st1 H1 a). destruct (release_held cf st1 l r) as [st2 o2]. exact IH.
+Qed.
+
+Lemma release_name_frame cf st n : same_frame st (fst (release_name cf st n)).
+Proof.
+  unfold release_name. destruct (held_for (st_held st) n) as [|x l]; [unfold same_frame; cbn [fst]; tauto|].
+  destruct (lookup (st_names st) n) as [[|ow q]|]; try (unfold same_frame; cbn [fst]; tauto).
+  destruct (release_held_frame cf (x :: l) (o_conn ow) (with_held st (set_held (st_held st) n []))) as [F _].
+  unfold same_frame in *. simpl in F. tauto.
+Qed.
+
+Lemma release_name_count cf st n :
+  (forall a, count_get a (st_pend st) <= max_replies cf) -> forall a, count_get a (st_pend (fst (release_name cf st n))) <= max_replies cf.
+Proof.
+  intros Hl. unfold release_name. destruct (held_for (st_held st) n) as [|x l]; [exact Hl|].
+  destruct (lookup (st_names st) n) as [[|ow q]|]; try exact Hl.
+  apply release_held_count. exact Hl.
+Qed.
+
+Lemma release_name_nil cf st n : st_held st = [] -> release_name cf st n = (st, []).
+Proof. intros H. unfold release_name. rewrite H. reflexivity. Qed.
+
 Lemma filter_count_le a (f : pend -> bool) l : count_get a (filter f l) <= count_get a l.
 Proof.
   induction l as [|p l IH]; cbn [filter]; [lia|]. destruct (f p); rewrite !count_get_cons; lia.
@@ -304,7 +374,7 @@ Proof.
   intros Hl a. unfold step. destruct (negb (wf_event st e)); [apply Hl|].
   destruct e as [fds|c m|c|d|c s n al rp dq|c s n|c s rl|c|c]; simpl.
   - apply Hl.
-  - unfold dispatch. destruct (resolve st (m_dest m)) as [r|]; [|apply Hl].
+  - unfold dispatch, deliver. destruct (resolve st (m_dest m)) as [r|]; [|pose proof (no_owner_props cf st c m) as NP; destruct (no_owner cf st c m) as [stn on]; cbn [fst snd] in NP; destruct NP as (N1 & N2 & N3 & N4 & N5 & N6 & N7 & N8); cbn [fst]; rewrite N5; apply Hl].
     destruct ((0 <? m_nfds m) && negb (conn_fds st r)); [apply Hl|].
     destruct (check_security_policy cf (st_now st) (st_pend st) c r m (is_full st r)) as [pl res] eqn:C.
     pose proof (csp_count _ _ _ _ _ _ _ _ _ a Hl C).
@@ -314,9 +384,12 @@ Proof.
     pose proof (drop_pending_count a (st_pend st) c). specialize (Hl a). lia.
   - unfold tick. rewrite expire_pass_spec. simpl.
     pose proof (filter_count_le a (fun p => negb (expired cf (st_now st + d) p)) (st_pend st)). specialize (Hl a). lia.
-  - destruct (acquire _ c al rp dq). simpl. apply Hl.
+  - destruct (acquire _ c al rp dq) as [q' code].
+    pose proof (release_name_count cf (set_names st (set_queue (st_names st) n q')) n Hl a) as R.
+    destruct (release_name cf (set_names st (set_queue (st_names st) n q')) n). exact R.
   - destruct (release (st_names st) c n). simpl. apply Hl.
-  - apply Hl.  - apply Hl.
+  - apply Hl.
+  - apply Hl.
   - apply Hl.
 Qed.
 
@@ -430,9 +503,12 @@ Proof.
     + simpl in W. rewrite W. intros x. unfold disconnect. destruct (expire_pass cf (st_now st) (drop_pending (st_pend st) c)).
       unfold connected. simpl. rewrite find_conn_filter. destruct (x =? c); auto.
     + intros x. unfold tick. destruct (expire_pass cf (st_now st + d) (st_pend st)). reflexivity.
-    + intros x. destruct (acquire _ c al rp dq). reflexivity.
+    + intros x. destruct (acquire _ c al rp dq) as [q' code].
+      pose proof (release_name_frame cf (set_names st (set_queue (st_names st) n q')) n) as (F & _).
+      destruct (release_name cf (set_names st (set_queue (st_names st) n q')) n) as [st2 o2]. cbn [fst] in *. unfold connected. rewrite F. reflexivity.
     + intros x. destruct (release (st_names st) c n). reflexivity.
-    + intros x. reflexivity.    + intros x. reflexivity.
+    + intros x. reflexivity.
+    + intros x. reflexivity.
     + intros x. reflexivity.
 Qed.
 
@@ -450,8 +526,10 @@ Proof.
   - unfold tick in *. destruct (expire_pass cf (st_now st + d) (st_pend st)) as [pl oo]. simpl in *.
     intros n q o H1 H2. rewrite Hc. eapply Hn; eauto.
   - simpl in W. rewrite !andb_true_iff in W. destruct W as [[W _] _].
-    destruct (acquire (match lookup (st_names st) n with Some q => q | None => [] end) c al rp dq) as [q' code] eqn:A. simpl in *.
-    intros n' q o H1 H2. rewrite Hc. apply set_queue_in in H1. destruct H1 as [[-> ->]|H1]; [|eapply Hn; eauto].
+    destruct (acquire (match lookup (st_names st) n with Some q => q | None => [] end) c al rp dq) as [q' code] eqn:A.
+    pose proof (release_name_frame cf (set_names st (set_queue (st_names st) n q')) n) as (_ & _ & Fn & _).
+    destruct (release_name cf (set_names st (set_queue (st_names st) n q')) n) as [st2 o2]. simpl in *.
+    intros n' q o H1 H2. rewrite Hc. rewrite Fn in H1. apply set_queue_in in H1. destruct H1 as [[-> ->]|H1]; [|eapply Hn; eauto].
     assert (H3 : In o (fst (acquire (match lookup (st_names st) n with Some q => q | None => [] end) c al rp dq))) by (rewrite A; auto).
     apply acquire_in in H3. destruct H3 as [->|H3]; auto.
     destruct (lookup (st_names st) n) eqn:L; [|destruct H3]. apply lookup_in in L. eapply Hn; eauto.
@@ -490,8 +568,8 @@ Definition full_idle (st : state) : Prop := forall p, In p (st_pend st) -> is_fu
 Lemma send_cases cf st c m st' o :
   full_idle st -> plain_msg m = true -> dispatch cf st c m = (st', o) -> send_case cf st c m st' o.
 Proof.
-  unfold plain_msg. intros Hfi Hp. unfold dispatch.
-  destruct (resolve st (m_dest m)) as [r|] eqn:Rs; [|intros H; inversion H; subst; apply SC_refused; auto].
+  unfold plain_msg. intros Hfi Hp. apply andb_true_iff in Hp. destruct Hp as [Hp _]. unfold dispatch, deliver.
+  destruct (resolve st (m_dest m)) as [r|] eqn:Rs; [|pose proof (no_owner_props cf st c m) as NP; destruct (no_owner cf st c m) as [stn on]; cbn [fst snd] in NP; destruct NP as (N1 & N2 & N3 & N4 & N5 & N6 & N7 & N8); intros H; inversion H; subst; apply SC_refused; auto; destruct N8 as [->|(e & -> & _)]; auto].
   destruct ((0 <? m_nfds m) && negb (conn_fds st r)); [intros H; inversion H; subst; apply SC_refused; auto|].
   destruct (check_security_policy cf (st_now st) (st_pend st) c r m (is_full st r)) as [pl res] eqn:C. revert C. unfold check_security_policy.
   destruct (m_rserial m =? 0) eqn:R0.
@@ -553,37 +631,103 @@ Qed.
 Lemma dispatch_getters cf st c m st' o :
   dispatch cf st c m = (st', o) -> st_full st' = st_full st /\ forall p, In p (st_pend st') -> In p (st_pend st) \/ p_get p = c.
 Proof.
-  unfold dispatch. destruct (resolve st (m_dest m)) as [r|]; [|intros H; inversion H; auto].
+  unfold dispatch, deliver. destruct (resolve st (m_dest m)) as [r|]; [|pose proof (no_owner_props cf st c m) as NP; destruct (no_owner cf st c m) as [stn on]; cbn [fst snd] in NP; destruct NP as (N1 & N2 & N3 & N4 & N5 & N6 & N7 & N8); intros H; inversion H; subst; rewrite N5; auto].
   destruct ((0 <? m_nfds m) && negb (conn_fds st r)); [intros H; inversion H; auto|].
   destruct (check_security_policy cf (st_now st) (st_pend st) c r m (is_full st r)) as [pl res] eqn:C.
   pose proof (csp_getters _ _ _ _ _ _ _ _ _ C) as G.
   destruct res as [e|]; intros H; inversion H; subst; simpl; auto.
 Qed.
 
-Lemma full_idle_step cf st e : full_idle st -> full_idle (fst (step cf st e)).
+(* ---- who can get a new slot; held entries ---- *)
+Lemma deliver_getters cf st c r m p : In p (st_pend (fst (deliver cf st c r m))) -> In p (st_pend st) \/ p_get p = c.
 Proof.
-  intros Hf. unfold step. destruct (negb (wf_event st e)) eqn:W; [exact Hf|]. apply negb_false_iff in W.
+  unfold deliver. destruct ((0 <? m_nfds m) && negb (conn_fds st r)); [cbn [fst]; auto|].
+  destruct (check_security_policy cf (st_now st) (st_pend st) c r m (is_full st r)) as [pl res] eqn:C.
+  pose proof (csp_getters _ _ _ _ _ _ _ _ _ C) as G. destruct res; cbn [fst]; simpl; auto.
+Qed.
+
+Lemma release_held_getters cf l r : forall st p,
+  In p (st_pend (fst (release_held cf st l r))) -> In p (st_pend st) \/ exists x, In x l /\ p_get p = fst x.
+Proof.
+  induction l as [|[c m] l IH]; intros st p; simpl; auto.
+  pose proof (deliver_getters cf st c r m p) as G. destruct (deliver cf st c r m) as [st1 o1]. cbn [fst] in *.
+  specialize (IH st1 p). destruct (release_held cf st1 l r) as [st2 o2]. cbn [fst] in *. intros H.
+  destruct (IH H) as [H1|(x & Hx & E)]; [|right; exists x; auto].
+  destruct (G H1) as [H2|E]; auto. right. exists (c, m). auto.
+Qed.
+
+Lemma held_for_in h n x : In x (held_for h n) -> exists l, In (n, l) h /\ In x l.
+Proof.
+  induction h as [|[k l] h IH]; simpl; [tauto|]. destruct (k =? n) eqn:E.
+  - apply N.eqb_eq in E. subst. intros H. exists l. auto.
+  - intros H. destruct (IH H) as (l' & H1 & H2). exists l'. auto.
+Qed.
+
+Lemma set_held_in h n l n' l' : In (n', l') (set_held h n l) -> (n' = n /\ l' = l) \/ In (n', l') h.
+Proof.
+  unfold set_held. rewrite in_app_iff. intros [H|H].
+  - destruct l; [destruct H|]. destruct H as [H|[]]. inversion H. auto.
+  - apply filter_In in H. tauto.
+Qed.
+
+Definition held_idle (st : state) : Prop := forall n l x, In (n, l) (st_held st) -> In x l -> is_full st (fst x) = false.
+Definition idle (st : state) : Prop := full_idle st /\ held_idle st.
+
+Lemma is_full_filter st c x l : existsb (N.eqb x) (st_full st) = false -> l = filter (fun y => negb (y =? c)) (st_full st) -> existsb (N.eqb x) l = false.
+Proof.
+  intros H ->. destruct (existsb (N.eqb x) (filter (fun y => negb (y =? c)) (st_full st))) eqn:E; auto.
+  apply existsb_eqb_mono with (l := st_full st) in E; [congruence|]. intros y Hy. apply filter_In in Hy. tauto.
+Qed.
+
+Lemma idle_step cf st e : idle st -> idle (fst (step cf st e)).
+Proof.
+  intros [Hf Hh]. unfold step. destruct (negb (wf_event st e)) eqn:W; [split; auto|]. apply negb_false_iff in W.
   destruct e as [fds|c m|c|d|c s n al rp dq|c s n|c s rl|c|c]; cbn [fst].
-  - exact Hf.
-  - destruct (dispatch cf st c m) as [st' o] eqn:D. cbn [fst]. destruct (dispatch_getters _ _ _ _ _ _ D) as [Ef G].
-    intros p Hp. unfold is_full. rewrite Ef. destruct (G p Hp) as [Hin| ->]; [apply Hf; auto|].
-    simpl in W. rewrite !andb_true_iff in W. destruct W as [_ W]. apply negb_true_iff in W. exact W.
-  - unfold disconnect. rewrite expire_pass_spec. cbn [fst]. intros p Hp. cbn [st_pend] in Hp. apply filter_In in Hp. destruct Hp as [Hp _].
-    apply drop_pending_in in Hp. destruct Hp as (p0 & Hin & _ & Hq).
-    assert (Eg : p_get p = p_get p0) by (destruct Hq as [[-> _]|[_ ->]]; reflexivity). rewrite Eg.
-    specialize (Hf p0 Hin). unfold is_full in *. cbn [st_full].
-    destruct (existsb (N.eqb (p_get p0)) (filter (fun x => negb (x =? c)) (st_full st))) eqn:E; auto.
-    apply existsb_eqb_mono with (l := st_full st) in E; [congruence|]. intros y Hy. apply filter_In in Hy. tauto.
-  - unfold tick. rewrite expire_pass_spec. cbn [fst]. intros p Hp. cbn [st_pend] in Hp. apply filter_In in Hp. destruct Hp as [Hp _]. apply (Hf p Hp).
-  - destruct (acquire _ c al rp dq). exact Hf.
-  - destruct (release (st_names st) c n). exact Hf.
-  - exact Hf.
-  - intros p Hp. cbn [st_pend] in Hp. unfold is_full. cbn [st_full existsb].
-    simpl in W. rewrite !andb_true_iff in W. destruct W as [_ W]. rewrite forallb_forall in W. specialize (W p Hp).
-    apply negb_true_iff in W. rewrite W. simpl. apply (Hf p Hp).
-  - intros p Hp. cbn [st_pend] in Hp. specialize (Hf p Hp). unfold is_full in *. cbn [st_full].
-    destruct (existsb (N.eqb (p_get p)) (filter (fun x => negb (x =? c)) (st_full st))) eqn:E; auto.
-    apply existsb_eqb_mono with (l := st_full st) in E; [congruence|]. intros y Hy. apply filter_In in Hy. tauto.
+  - split; auto.
+  - simpl in W. rewrite !andb_true_iff in W. destruct W as [_ W]. apply negb_true_iff in W.
+    unfold dispatch. destruct (resolve st (m_dest m)) as [r|].
+    + pose proof (deliver_frame cf st c r m) as [(_ & _ & _ & _ & Ff & _) Fh]. pose proof (deliver_getters cf st c r m) as G.
+      destruct (deliver cf st c r m) as [st1 o1]. cbn [fst] in *. split.
+      * intros p Hp. unfold is_full. rewrite Ff. destruct (G p Hp) as [H| ->]; [apply Hf; auto|exact W].
+      * intros n l x H1 H2. unfold is_full. rewrite Ff. rewrite Fh in H1. apply (Hh n l x H1 H2).
+    + pose proof (no_owner_props cf st c m) as NP. unfold no_owner in *. destruct (m_dest m) as [u|n]; [cbn [fst] in *; split; auto|].
+      destruct (negb (m_noauto m) && activatable n); [|cbn [fst]; split; auto].
+      destruct (can_send cf m false); cbn [fst]; [|split; auto]. split.
+      * intros p Hp. apply (Hf p Hp).
+      * intros n' l x H1 H2. cbn [st_held with_held] in H1. unfold is_full. cbn [st_full with_held]. apply set_held_in in H1.
+        destruct H1 as [[-> ->]|H1]; [|apply (Hh n' l x H1 H2)]. apply in_app_iff in H2. destruct H2 as [H2|[<-|[]]]; [|exact W].
+        destruct (held_for_in _ _ _ H2) as (l0 & H3 & H4). apply (Hh n l0 x H3 H4).
+  - unfold disconnect. rewrite expire_pass_spec. cbn [fst]. split.
+    + intros p Hp. cbn [st_pend] in Hp. apply filter_In in Hp. destruct Hp as [Hp _].
+      apply drop_pending_in in Hp. destruct Hp as (p0 & Hin & _ & Hq).
+      assert (Eg : p_get p = p_get p0) by (destruct Hq as [[-> _]|[_ ->]]; reflexivity). rewrite Eg.
+      unfold is_full. cbn [st_full]. eapply is_full_filter; [apply (Hf p0 Hin)|reflexivity].
+    + intros n l x H1 H2. cbn [st_held] in H1. apply in_map_iff in H1. destruct H1 as ([k l0] & E & H1). simpl in E. injection E as E1 E2. subst n l.
+      apply filter_In in H2. destruct H2 as [H2 _]. unfold is_full. cbn [st_full]. eapply is_full_filter; [apply (Hh k l0 x H1 H2)|reflexivity].
+  - unfold tick. rewrite expire_pass_spec. cbn [fst]. split.
+    + intros p Hp. cbn [st_pend] in Hp. apply filter_In in Hp. destruct Hp as [Hp _]. apply (Hf p Hp).
+    + intros n l x H1 H2. apply (Hh n l x H1 H2).
+  - destruct (acquire _ c al rp dq) as [q' code]. set (st1 := set_names st (set_queue (st_names st) n q')).
+    assert (I1 : idle st1) by (split; auto).
+    unfold release_name. destruct (held_for (st_held st1) n) as [|x0 l0] eqn:El; [cbn [fst]; exact I1|].
+    destruct (lookup (st_names st1) n) as [[|ow q]|]; try (cbn [fst]; exact I1).
+    set (st1' := with_held st1 (set_held (st_held st1) n [])).
+    pose proof (release_held_frame cf (x0 :: l0) (o_conn ow) st1') as [(_ & _ & _ & _ & Ff & _) Fh].
+    pose proof (release_held_getters cf (x0 :: l0) (o_conn ow) st1') as G.
+    destruct (release_held cf st1' (x0 :: l0) (o_conn ow)) as [st2 o2]. cbn [fst] in *. split.
+    + intros p Hp. unfold is_full. rewrite Ff. destruct (G p Hp) as [H|(x & Hx & E)]; [apply (Hf p H)|].
+      rewrite E. rewrite <- El in Hx. destruct (held_for_in _ _ _ Hx) as (l1 & H3 & H4). apply (Hh n l1 x H3 H4).
+    + intros n' l x H1 H2. unfold is_full. rewrite Ff. rewrite Fh in H1. cbn [st_held st1' with_held] in H1. apply set_held_in in H1.
+      destruct H1 as [[_ ->]|H1]; [destruct H2|apply (Hh n' l x H1 H2)].
+  - destruct (release (st_names st) c n). split; auto.
+  - split; auto.
+  - simpl in W. rewrite !andb_true_iff in W. destruct W as [[_ W1] W2]. rewrite forallb_forall in W1, W2. split.
+    + intros p Hp. cbn [st_pend] in Hp. unfold is_full. cbn [st_full existsb]. specialize (W1 p Hp). apply negb_true_iff in W1. rewrite W1. apply (Hf p Hp).
+    + intros n l x H1 H2. cbn [st_held] in H1. unfold is_full. cbn [st_full existsb]. specialize (W2 (n, l) H1). cbn [snd] in W2.
+      rewrite forallb_forall in W2. specialize (W2 x H2). apply negb_true_iff in W2. rewrite W2. apply (Hh n l x H1 H2).
+  - split.
+    + intros p Hp. cbn [st_pend] in Hp. unfold is_full. cbn [st_full]. eapply is_full_filter; [apply (Hf p Hp)|reflexivity].
+    + intros n l x H1 H2. cbn [st_held] in H1. unfold is_full. cbn [st_full]. eapply is_full_filter; [apply (Hh n l x H1 H2)|reflexivity].
 Qed.
 
 (* ------------------------------------------------------------------ Part 3c: table = ledger *)
@@ -824,10 +968,10 @@ Lemma age_other T e o tr a b s :
 Proof. destruct e; simpl; tauto. Qed.
 
 Lemma Inv_step cf st tr e :
-  Inv cf st tr -> names_ok st -> full_idle st -> plain_event e = true ->
+  Inv cf st tr -> names_ok st -> full_idle st -> st_held st = [] -> plain_event e = true ->
   Inv cf (fst (step cf st e)) ((e, snd (step cf st e)) :: tr).
 Proof.
-  intros I Hn Hfi Hp. pose proof (step_conn cf st e) as Hc. revert Hc. unfold step.
+  intros I Hn Hfi Hnh Hp. pose proof (step_conn cf st e) as Hc. revert Hc. unfold step.
   destruct (negb (wf_event st e)) eqn:W; cbn [fst snd].
   - (* ill-formed: nothing happens *)
     intros _. destruct e as [fds|c m|c|d|c s n al rp dq|c s n|c s rl|c|c]; try discriminate.
@@ -844,7 +988,7 @@ Proof.
       destruct (dispatch cf st c m) as [st' o] eqn:D. cbn [fst snd]. apply (Inv_send cf st); auto.
     + apply Inv_disconnect; auto.
     + apply Inv_tick; auto.
-    + destruct (acquire _ c al rp dq) as [q' code]. cbn [fst snd]. apply (Inv_same cf st tr); auto;
+    + destruct (acquire _ c al rp dq) as [q' code]. rewrite release_name_nil by exact Hnh. cbn [fst snd app]. apply (Inv_same cf st tr); auto;
         try solve [intros x Hx; simpl in Hc; rewrite Hc; auto]; try solve [intros; apply age_other; exact Logic.I].
     + destruct (release (st_names st) c n) as [nm code]. cbn [fst snd]. apply (Inv_same cf st tr); auto;
         try solve [intros x Hx; simpl in Hc; rewrite Hc; auto]; try solve [intros; apply age_other; exact Logic.I].
@@ -877,11 +1021,50 @@ Qed.
 Lemma plain_app h1 h2 : plain (h1 ++ h2) = plain h1 && plain h2.
 Proof. unfold plain. apply forallb_app. Qed.
 
-Lemma full_idle_all cf h : full_idle (state_of cf h).
+Lemma idle_all cf h : idle (state_of cf h).
 Proof.
   induction h as [|e h IH] using rev_ind.
-  - intros p [].
-  - unfold state_of. rewrite run_snoc. cbn [fst]. apply full_idle_step; auto.
+  - split; [intros p []|intros n l x []].
+  - unfold state_of. rewrite run_snoc. cbn [fst]. apply idle_step; auto.
+Qed.
+
+Lemma full_idle_all cf h : full_idle (state_of cf h).
+Proof. apply idle_all. Qed.
+
+Lemma no_held_step' cf st e :
+  st_held st = [] -> match e with ESend _ m => auto_starts m = false | _ => True end -> st_held (fst (step cf st e)) = [].
+Proof.
+  intros Hh Hp. unfold step. destruct (negb (wf_event st e)); [exact Hh|].
+  destruct e as [fds|c m|c|d|c s n al rp dq|c s n|c s rl|c|c]; cbn [fst]; try exact Hh.
+  - unfold dispatch. destruct (resolve st (m_dest m)) as [r|].
+    + destruct (deliver_frame cf st c r m) as [_ F]. rewrite F. exact Hh.
+    + unfold auto_starts in Hp.
+      unfold no_owner. destruct (m_dest m) as [u|n]; [exact Hh|]. rewrite andb_comm in Hp. rewrite Hp. exact Hh.
+  - unfold disconnect. destruct (expire_pass cf (st_now st) (drop_pending (st_pend st) c)). cbn [fst st_held]. rewrite Hh. reflexivity.
+  - unfold tick. destruct (expire_pass cf (st_now st + d) (st_pend st)). exact Hh.
+  - destruct (acquire _ c al rp dq) as [q' code]. rewrite release_name_nil by exact Hh. exact Hh.
+  - destruct (release (st_names st) c n). exact Hh.
+Qed.
+
+Lemma no_held_step cf st e : st_held st = [] -> plain_event e = true -> st_held (fst (step cf st e)) = [].
+Proof.
+  intros Hh Hp. apply no_held_step'; auto. destruct e; auto. simpl in Hp. unfold plain_msg in Hp.
+  apply andb_true_iff in Hp. destruct Hp as [_ Hp]. apply negb_true_iff in Hp. exact Hp.
+Qed.
+
+Lemma no_held_noauto cf h : noauto h = true -> st_held (state_of cf h) = [].
+Proof.
+  induction h as [|e h IH] using rev_ind; intros Hp; [reflexivity|].
+  unfold noauto in Hp. rewrite forallb_app in Hp. apply andb_true_iff in Hp. destruct Hp as [Hp He]. simpl in He. rewrite andb_true_r in He.
+  unfold state_of. rewrite run_snoc. cbn [fst]. apply no_held_step'; [apply IH; exact Hp|].
+  destruct e; auto. apply negb_true_iff in He. exact He.
+Qed.
+
+Lemma no_held_all cf h : plain h = true -> st_held (state_of cf h) = [].
+Proof.
+  induction h as [|e h IH] using rev_ind; intros Hp; [reflexivity|].
+  rewrite plain_app in Hp. apply andb_true_iff in Hp. destruct Hp as [Hp He]. simpl in He. rewrite andb_true_r in He.
+  unfold state_of. rewrite run_snoc. cbn [fst]. apply no_held_step; auto.
 Qed.
 
 Theorem ledger_invariant cf h : plain h = true -> Inv cf (state_of cf h) (trace_of cf h) /\ names_ok (state_of cf h).
@@ -890,7 +1073,7 @@ Proof.
   - split; [apply Inv_init|]. intros n q o [].
   - rewrite plain_app in Hp. apply andb_true_iff in Hp. destruct Hp as [Hp He]. simpl in He. rewrite andb_true_r in He.
     destruct (IH Hp) as [I Hn]. unfold state_of, trace_of. rewrite run_snoc. cbn [fst snd]. split.
-    + apply Inv_step; auto. apply full_idle_all.
+    + apply Inv_step; auto; [apply full_idle_all|apply no_held_all; auto].
     + apply names_ok_step; auto.
 Qed.
 
@@ -985,7 +1168,7 @@ Proof.
     apply in_rev in Hin. unfold plain in Hp'. rewrite forallb_forall in Hp'. specialize (Hp' _ Hin).
     destruct e1 as [|c1 m1| | | | | | |]; try discriminate. simpl in A1, Hp' |- *.
     rewrite !andb_true_iff, !N.eqb_eq, negb_true_iff, N.eqb_neq in A1. destruct A1 as [[[_ R] Z] _].
-    unfold plain_msg in Hp'. pose proof Hp' as Hc.
+    unfold plain_msg in Hp'. apply andb_true_iff in Hp'. destruct Hp' as [Hc _].
     destruct (is_call m1); [|rewrite andb_false_r; auto]. simpl in Hc. apply N.eqb_eq in Hc. congruence. }
   destruct (opened_in tr2 a b s) eqn:O; auto. exfalso.
   destruct e2 as [|c2 m2| | | | | | |]; try discriminate. simpl in A2.
@@ -1017,7 +1200,7 @@ Theorem limit_refuses cf st c m r :
   (forall p, In p (st_pend st) -> pend_match c r (m_serial m) p = false) ->
   step cf st (ESend c m) = (st, [(c, OErr ELimitsExceeded (m_serial m))]).
 Proof.
-  intros W Hc Hn Hr Rs Hfd Hl Hno. rewrite step_send; auto. unfold dispatch. rewrite Rs, Hfd. unfold check_security_policy.
+  intros W Hc Hn Hr Rs Hfd Hl Hno. rewrite step_send; auto. unfold dispatch, deliver. rewrite Rs, Hfd. unfold check_security_policy.
   assert (Hcs : forall rq, can_send cf m rq = true) by (intros rq; unfold can_send; rewrite Hr; destruct (restrictive cf); auto).
   assert (Hcr : forall rq, can_receive cf m rq = true) by (intros rq; unfold can_receive; rewrite Hr; destruct (restrictive cf); auto).
   rewrite Hr. cbn [N.eqb]. rewrite Hcs, Hcr. cbn [negb].
@@ -1131,12 +1314,14 @@ Qed.
 
 Lemma dispatch_no_noreply cf st c m a s : count_noreply (snd (dispatch cf st c m)) a s = 0%nat.
 Proof.
-  unfold dispatch. destruct (resolve st (m_dest m)) as [r|].
+  unfold dispatch, deliver. destruct (resolve st (m_dest m)) as [r|].
   - destruct ((0 <? m_nfds m) && negb (conn_fds st r)); [unfold count_noreply, nr_is; simpl; destruct (c =? a); reflexivity|].
     destruct (check_security_policy cf (st_now st) (st_pend st) c r m (is_full st r)) as [pl [e|]] eqn:C.
     + destruct (csp_error_kinds _ _ _ _ _ _ _ _ _ C) as [->| ->]; unfold count_noreply, nr_is; simpl; destruct (c =? a); reflexivity.
     + cbn [snd]. apply count_noreply_fwd_out.
-  - unfold count_noreply, nr_is. simpl. destruct (m_noauto m); destruct (c =? a); reflexivity.
+  - pose proof (no_owner_props cf st c m) as NP. destruct (no_owner cf st c m) as [stn on]. cbn [fst snd] in *.
+    destruct NP as (_ & _ & _ & _ & _ & _ & _ & [->|(e & -> & He)]); [reflexivity|].
+    unfold count_noreply, nr_is. simpl. destruct e; try congruence; destruct (c =? a); reflexivity.
 Qed.
 
 Theorem noreply_only_for_open_calls cf h e a s :
@@ -1171,7 +1356,7 @@ Proof.
             | Some t => if timed_out (reply_timeout cf) (t + d) then None else Some (t + d) | None => None end).
     rewrite A. replace (st_now (state_of cf h) - p_added q + d) with (st_now (state_of cf h) + d - p_added q) by lia.
     rewrite He. reflexivity.
-  - unfold step in Hc. rewrite W in Hc. cbn [negb] in Hc. destruct (acquire _ c al rp dq) in Hc. unfold count_noreply, nr_is in Hc. simpl in Hc. destruct (c =? a); simpl in Hc; lia.
+  - unfold step in Hc. rewrite W in Hc. cbn [negb] in Hc. destruct (acquire _ c al rp dq) in Hc. rewrite release_name_nil in Hc by (apply no_held_all; exact Hp). unfold count_noreply, nr_is in Hc. simpl in Hc. destruct (c =? a); simpl in Hc; lia.
   - unfold step in Hc. rewrite W in Hc. cbn [negb] in Hc. destruct (release _ c n) in Hc. unfold count_noreply, nr_is in Hc. simpl in Hc. destruct (c =? a); simpl in Hc; lia.  - unfold step in Hc. rewrite W in Hc. cbn [negb] in Hc. unfold count_noreply, nr_is in Hc. simpl in Hc. destruct (c =? a); simpl in Hc; lia.  - unfold step in Hc. rewrite W in Hc. cbn [negb] in Hc. unfold count_noreply in Hc. simpl in Hc. lia.
   - unfold step in Hc. rewrite W in Hc. cbn [negb] in Hc. unfold count_noreply in Hc. simpl in Hc. lia.
 Qed.
@@ -1188,27 +1373,49 @@ Proof.
 Qed.
 
 (* ------------------------------------------------------------------ C05 *)
+(* a send yields exactly one of: the message to the owner (plus eavesdropped copies), one error to the sender, or -- for an
+   auto-start message to an unowned activatable name -- nothing yet: the message is held *)
+Lemma no_owner_hold cf st c m :
+  snd (no_owner cf st c m) = [] ->
+  exists n, m_dest m = DName n /\ auto_starts m = true /\
+            st_held (fst (no_owner cf st c m)) = set_held (st_held st) n (held_for (st_held st) n ++ [(c, m)]).
+Proof.
+  unfold no_owner, auto_starts. destruct (m_dest m) as [u|n]; [cbn [snd]; discriminate|].
+  rewrite (andb_comm (activatable n)). destruct (negb (m_noauto m) && activatable n); [|cbn [snd]; discriminate].
+  destruct (can_send cf m false); cbn [fst snd]; [|discriminate]. intros _. exists n. auto.
+Qed.
+
 Theorem send_exactly_once cf st c m :
   wf_event st (ESend c m) = true ->
   (exists r, resolve st (m_dest m) = Some r /\ snd (step cf st (ESend c m)) = fwd_out cf st c r m) \/
-  (exists e, snd (step cf st (ESend c m)) = [(c, OErr e (m_serial m))]).
+  (exists e, snd (step cf st (ESend c m)) = [(c, OErr e (m_serial m))]) \/
+  (snd (step cf st (ESend c m)) = [] /\ resolve st (m_dest m) = None /\ auto_starts m = true /\
+   exists n, m_dest m = DName n /\
+     st_held (fst (step cf st (ESend c m))) = set_held (st_held st) n (held_for (st_held st) n ++ [(c, m)])).
 Proof.
-  intros W. rewrite step_send; auto. destruct (dispatch cf st c m) as [st' o] eqn:D. apply dispatch_shape in D. exact D.
+  intros W. rewrite step_send; auto. destruct (dispatch cf st c m) as [st' o] eqn:D. pose proof D as D0. apply dispatch_shape in D.
+  destruct D as [D|[D|[-> R]]]; auto. right; right. cbn [fst snd]. split; auto. split; auto.
+  unfold dispatch in D0. rewrite R in D0. destruct (no_owner_hold cf st c m) as (n & E1 & E2 & E3); [rewrite D0; reflexivity|].
+  rewrite D0 in E3. cbn [fst] in E3. split; auto. exists n. auto.
 Qed.
 
 Theorem no_third_party cf st c m x f m' :
   In (x, OFwd f m') (snd (step cf st (ESend c m))) -> resolve st (m_dest m) = Some x /\ f = c /\ m' = m.
 Proof.
   destruct (wf_event st (ESend c m)) eqn:W; [|rewrite step_illformed; auto; intros []].
-  destruct (send_exactly_once cf st c m W) as [(r & Rs & ->)|(e & ->)].
+  destruct (send_exactly_once cf st c m W) as [(r & Rs & ->)|[(e & ->)|(-> & _)]].
   - intros [H|H]; [inversion H; subst; auto|]. apply eav_out_in in H. discriminate.
   - intros [H|[]]; inversion H.
+  - intros [].
 Qed.
 
 Theorem no_owner_error cf st c m :
-  wf_event st (ESend c m) = true -> resolve st (m_dest m) = None ->
+  wf_event st (ESend c m) = true -> resolve st (m_dest m) = None -> auto_starts m = false ->
   step cf st (ESend c m) = (st, [(c, OErr (if m_noauto m then ENameHasNoOwner else EServiceUnknown) (m_serial m))]).
-Proof. intros W R. rewrite step_send; auto. unfold dispatch. rewrite R. reflexivity. Qed.
+Proof.
+  intros W R A. rewrite step_send; auto. unfold dispatch. rewrite R. unfold no_owner, auto_starts in *.
+  destruct (m_dest m) as [u|n]; auto. rewrite andb_comm in A. rewrite A. reflexivity.
+Qed.
 
 Theorem permissive_delivers cf st c m r :
   wf_event st (ESend c m) = true -> restrictive cf = false -> resolve st (m_dest m) = Some r ->
@@ -1217,7 +1424,7 @@ Theorem permissive_delivers cf st c m r :
    ((forall p, In p (st_pend st) -> pend_match c r (m_serial m) p = false) /\ count_get c (st_pend st) < max_replies cf)) ->
   snd (step cf st (ESend c m)) = fwd_out cf st c r m.
 Proof.
-  intros W Hr Rs Hf Hfl Hc. rewrite step_send; auto. unfold dispatch. rewrite Rs, Hfl.
+  intros W Hr Rs Hf Hfl Hc. rewrite step_send; auto. unfold dispatch, deliver. rewrite Rs, Hfl.
   destruct (check_security_policy cf (st_now st) (st_pend st) c r m false) as [pl res] eqn:C.
   assert (res = None); [|subst res; rewrite Hf; reflexivity].
   revert C. unfold check_security_policy.
@@ -1238,14 +1445,15 @@ Proof.
 Qed.
 
 Lemma step_nonsend_no_fwd cf st e x :
+  st_held st = [] ->
   match e with ESend _ _ => False | _ => True end -> In x (snd (step cf st e)) -> match snd x with OFwd _ _ => False | _ => True end.
 Proof.
-  intros He. unfold step. destruct (negb (wf_event st e)); [intros []|].
+  intros Hh He. unfold step. destruct (negb (wf_event st e)); [intros []|].
   destruct e as [fds|c m|c|d|c s n al rp dq|c s n|c s rl|c|c]; try tauto.
   - intros [].
   - unfold disconnect. rewrite expire_pass_spec. cbn [snd]. intros H. apply in_map_iff in H. destruct H as (p & <- & _). exact I.
   - unfold tick. rewrite expire_pass_spec. cbn [snd]. intros H. apply in_map_iff in H. destruct H as (p & <- & _). exact I.
-  - destruct (acquire _ c al rp dq). intros [<-|[]]. exact I.
+  - destruct (acquire _ c al rp dq). rewrite release_name_nil by exact Hh. intros [<-|[]]. exact I.
   - destruct (release (st_names st) c n). intros [<-|[]]. exact I.
   - intros [<-|[]]. exact I.
   - intros [].
@@ -1273,19 +1481,22 @@ Qed.
 
 (* per (sender, recipient) FIFO: what b reads from a is, in order, what a wrote and the bus passed on to b *)
 Theorem fifo cf h a b :
+  noauto h = true ->
   filter (from_conn a) (inbox (trace_of cf h) b) = map (OFwd a) (passed_on (trace_of cf h) a b).
 Proof.
-  induction h as [|e h IH] using rev_ind; auto.
+  induction h as [|e h IH] using rev_ind; auto. intros Hna.
+  unfold noauto in Hna. rewrite forallb_app in Hna. apply andb_true_iff in Hna. destruct Hna as [Hna _]. fold (noauto h) in Hna.
+  specialize (IH Hna). pose proof (no_held_noauto cf h Hna) as Hnh.
   unfold trace_of. rewrite run_snoc. cbn [snd]. fold (trace_of cf h).
   set (st := state_of cf h). set (o := snd (step cf st e)).
   assert (Hin : inbox ((e, o) :: trace_of cf h) b = inbox (trace_of cf h) b ++ map snd (filter (fun x => fst x =? b) o)) by reflexivity.
   rewrite Hin, filter_app, IH.
   destruct e as [fds|c m|c|d|c s n al rp dq|c s n|c s rl|c|c];
-    try (rewrite no_fwd_filter; [rewrite app_nil_r; reflexivity|intros x; apply step_nonsend_no_fwd; exact I]).
+    try (rewrite no_fwd_filter; [rewrite app_nil_r; reflexivity|intros x; apply step_nonsend_no_fwd; [exact Hnh|exact I]]).
   assert (Hpo : passed_on ((ESend c m, o) :: trace_of cf h) a b = passed_on (trace_of cf h) a b ++ (if (c =? a) && fwd_to o b then [m] else [])) by reflexivity.
   rewrite Hpo, map_app. f_equal.
   destruct (wf_event st (ESend c m)) eqn:W.
-  - destruct (send_exactly_once cf st c m W) as [(r & _ & E)|(er & E)]; fold o in E; rewrite E.
+  - destruct (send_exactly_once cf st c m W) as [(r & _ & E)|[(er & E)|(E & _)]]; fold o in E; rewrite E; [| |simpl; rewrite andb_false_r; reflexivity].
     + rewrite fwd_to_single. unfold fwd_out. cbn [filter fst]. destruct (r =? b); cbn [map snd filter from_conn].
       * rewrite andb_true_r. rewrite eav_from_conn. destruct (c =? a) eqn:Ca; auto. apply N.eqb_eq in Ca. subst. reflexivity.
       * rewrite andb_false_r. apply eav_from_conn.
@@ -1357,31 +1568,97 @@ Proof.
   rewrite !count_gs_app. unfold count_gs at 4. cbn [filter]. destruct (gs a s p); cbn [length]; unfold count_gs; lia.
 Qed.
 
-(* every message: errors produced + slots afterwards <= slots before + 1 if this is a's message with serial s *)
+(* every message: errors produced + slots afterwards + entries still held <= the same before + 1 if this is a's message with
+   serial s *)
+Definition hkey (a s : N) (x : N * msg) : bool := (fst x =? a) && (m_serial (snd x) =? s).
+Definition hcount (a s : N) (h : list (N * list (N * msg))) : nat := length (filter (hkey a s) (flat_map snd h)).
+
+Lemma hcount_filter_le a s n h :
+  (length (filter (hkey a s) (flat_map snd (filter (fun e => negb (fst e =? n)) h))) + length (filter (hkey a s) (held_for h n))
+   <= length (filter (hkey a s) (flat_map snd h)))%nat.
+Proof.
+  induction h as [|[k l0] h IH]; simpl; [lia|]. destruct (k =? n) eqn:E; simpl.
+  - rewrite filter_app, app_length.
+    assert (length (filter (hkey a s) (flat_map snd (filter (fun e => negb (fst e =? n)) h))) <= length (filter (hkey a s) (flat_map snd h)))%nat by lia. lia.
+  - rewrite !filter_app, !app_length. lia.
+Qed.
+
+Lemma hcount_set_held a s h n l :
+  (hcount a s (set_held h n l) + length (filter (hkey a s) (held_for h n)) <= hcount a s h + length (filter (hkey a s) l))%nat.
+Proof.
+  unfold hcount, set_held. rewrite flat_map_app, filter_app, app_length. pose proof (hcount_filter_le a s n h).
+  destruct l as [|p l']; [simpl; lia|]. cbn [flat_map snd]. rewrite app_nil_r. lia.
+Qed.
+
+Lemma deliver_gs cf st c r m a s :
+  (length (filter (err_is a s) (snd (deliver cf st c r m))) + count_gs a s (st_pend (fst (deliver cf st c r m)))
+   <= count_gs a s (st_pend st) + (if (c =? a) && (m_serial m =? s) then 1 else 0))%nat.
+Proof.
+  assert (E1 : forall x, length (filter (err_is a s) [(c, OErr x (m_serial m))]) = if (c =? a) && (m_serial m =? s) then 1%nat else 0%nat).
+  { intros x. cbn [filter]. unfold err_is. cbn [fst snd]. destruct ((c =? a) && (m_serial m =? s)); reflexivity. }
+  unfold deliver. destruct ((0 <? m_nfds m) && negb (conn_fds st r)); [cbn [fst snd]; rewrite E1; lia|].
+  destruct (check_security_policy cf (st_now st) (st_pend st) c r m (is_full st r)) as [pl res] eqn:C.
+  pose proof (csp_gs _ _ _ _ _ _ _ _ _ a s C) as G.
+  destruct res as [x|]; cbn [fst snd set_pend st_pend].
+  - rewrite E1. destruct ((c =? a) && (m_serial m =? s)); lia.
+  - fold (fwd_out cf st c r m). rewrite err_fwd_out. simpl. lia.
+Qed.
+
+Lemma release_held_gs cf l r a s : forall st,
+  (length (filter (err_is a s) (snd (release_held cf st l r))) + count_gs a s (st_pend (fst (release_held cf st l r)))
+   <= count_gs a s (st_pend st) + length (filter (hkey a s) l))%nat.
+Proof.
+  induction l as [|[c m] l IH]; intros st; simpl; [lia|].
+  pose proof (deliver_gs cf st c r m a s) as D. destruct (deliver cf st c r m) as [st1 o1]. cbn [fst snd] in *.
+  specialize (IH st1). destruct (release_held cf st1 l r) as [st2 o2]. cbn [fst snd] in *.
+  rewrite filter_app, app_length. unfold hkey at 1. cbn [fst snd]. destruct ((c =? a) && (m_serial m =? s)); simpl; lia.
+Qed.
+
 Lemma errors_step cf st e a s :
-  (length (filter (err_is a s) (snd (step cf st e))) + count_gs a s (st_pend (fst (step cf st e)))
-   <= count_gs a s (st_pend st) + (if is_send_as a s e then 1 else 0))%nat.
+  (length (filter (err_is a s) (snd (step cf st e))) + count_gs a s (st_pend (fst (step cf st e))) + hcount a s (st_held (fst (step cf st e)))
+   <= count_gs a s (st_pend st) + hcount a s (st_held st) + (if is_send_as a s e then 1 else 0))%nat.
 Proof.
   unfold step. destruct (negb (wf_event st e)); [simpl; lia|].
   destruct e as [fds|c m|c|d|c sr n al rp dq|c sr n|c sr rl|c|c]; cbn [is_send_as].
   - simpl. lia.
-  - assert (E1 : forall x, length (filter (err_is a s) [(c, OErr x (m_serial m))]) = if (c =? a) && (m_serial m =? s) then 1%nat else 0%nat).
-    { intros x. cbn [filter]. unfold err_is. cbn [fst snd]. destruct ((c =? a) && (m_serial m =? s)); reflexivity. }
-    unfold dispatch. destruct (resolve st (m_dest m)) as [r|]; [|cbn [fst snd]; rewrite E1; lia].
-    destruct ((0 <? m_nfds m) && negb (conn_fds st r)); [cbn [fst snd]; rewrite E1; lia|].
-    destruct (check_security_policy cf (st_now st) (st_pend st) c r m (is_full st r)) as [pl res] eqn:C.
-    pose proof (csp_gs _ _ _ _ _ _ _ _ _ a s C) as G.
-    destruct res as [x|]; cbn [fst snd set_pend st_pend].
-    + rewrite E1. destruct ((c =? a) && (m_serial m =? s)); lia.
-    + fold (fwd_out cf st c r m). rewrite err_fwd_out. simpl. lia.
-  - unfold disconnect. rewrite expire_pass_spec. cbn [fst snd st_pend].
+  - unfold dispatch. destruct (resolve st (m_dest m)) as [r|].
+    + pose proof (deliver_gs cf st c r m a s) as D. destruct (deliver_frame cf st c r m) as [_ Fh].
+      destruct (deliver cf st c r m) as [st1 o1]. cbn [fst snd] in *. rewrite Fh. lia.
+    + unfold no_owner. destruct (m_dest m) as [u|n].
+      * cbn [fst snd filter]. unfold err_is. cbn [fst snd]. destruct ((c =? a) && (m_serial m =? s)); simpl; lia.
+      * destruct (negb (m_noauto m) && activatable n).
+        -- destruct (can_send cf m false); cbn [fst snd filter].
+           ++ cbn [st_pend st_held with_held]. pose proof (hcount_set_held a s (st_held st) n (held_for (st_held st) n ++ [(c, m)])) as H.
+              rewrite filter_app, app_length in H. cbn [filter] in H. unfold hkey at 3 in H. cbn [fst snd] in H.
+              destruct ((c =? a) && (m_serial m =? s)); simpl in *; lia.
+           ++ unfold err_is. cbn [fst snd]. destruct ((c =? a) && (m_serial m =? s)); simpl; lia.
+        -- cbn [fst snd filter]. unfold err_is. cbn [fst snd]. destruct ((c =? a) && (m_serial m =? s)); simpl; lia.
+  - unfold disconnect. rewrite expire_pass_spec. cbn [fst snd st_pend st_held].
     pose proof (expire_partition a s (expired cf (st_now st)) (drop_pending (st_pend st) c)).
-    pose proof (count_gs_drop a s (st_pend st) c). lia.
-  - unfold tick. rewrite expire_pass_spec. cbn [fst snd st_pend].
+    pose proof (count_gs_drop a s (st_pend st) c).
+    assert (Hh : (hcount a s (map (fun e => (fst e, filter (fun x => negb (fst x =? c)) (snd e))) (st_held st)) <= hcount a s (st_held st))%nat).
+    { unfold hcount. induction (st_held st) as [|[k l] h IH]; simpl; [lia|]. rewrite !filter_app, !app_length.
+      assert (length (filter (hkey a s) (filter (fun x => negb (fst x =? c)) l)) <= length (filter (hkey a s) l))%nat.
+      { clear. induction l as [|x l IH]; simpl; [lia|]. destruct (negb (fst x =? c)); simpl; destruct (hkey a s x); simpl; lia. }
+      lia. }
+    lia.
+  - unfold tick. rewrite expire_pass_spec. cbn [fst snd st_pend st_held].
     pose proof (expire_partition a s (expired cf (st_now st + d)) (st_pend st)). lia.
-  - destruct (acquire _ c al rp dq). simpl. unfold err_is. cbn [fst snd]. rewrite andb_false_r. simpl. lia.
+  - destruct (acquire _ c al rp dq) as [q' code]. set (st1 := set_names st (set_queue (st_names st) n q')).
+    assert (Ed : forall o, length (filter (err_is a s) (o ++ [(c, ODrv sr code)])) = length (filter (err_is a s) o)).
+    { intros o. rewrite filter_app, app_length. cbn [filter]. unfold err_is at 2. cbn [fst snd]. rewrite andb_false_r. simpl. lia. }
+    unfold release_name. change (st_held st1) with (st_held st). change (st_pend st) with (st_pend st1).
+    destruct (held_for (st_held st) n) as [|x0 l0] eqn:El; [cbn [fst snd]; rewrite Ed; simpl; lia|].
+    destruct (lookup (st_names st1) n) as [[|ow q]|]; try (cbn [fst snd]; rewrite Ed; simpl; lia).
+    set (st1' := with_held st1 (set_held (st_held st) n [])).
+    pose proof (release_held_gs cf (x0 :: l0) (o_conn ow) a s st1') as G.
+    destruct (release_held_frame cf (x0 :: l0) (o_conn ow) st1') as [_ Fh].
+    destruct (release_held cf st1' (x0 :: l0) (o_conn ow)) as [st2 o2]. cbn [fst snd] in *. rewrite Ed, Fh.
+    pose proof (hcount_set_held a s (st_held st) n []) as H. rewrite El in H. cbn [st_held st1' with_held].
+    change (st_pend st1') with (st_pend st1) in G. change (length (filter (hkey a s) [])) with 0%nat in H. lia.
   - destruct (release (st_names st) c n). simpl. unfold err_is. cbn [fst snd]. rewrite andb_false_r. simpl. lia.
-  - simpl. unfold err_is. cbn [fst snd]. rewrite andb_false_r. simpl. lia.  - simpl. lia.
+  - simpl. unfold err_is. cbn [fst snd]. rewrite andb_false_r. simpl. lia.
+  - simpl. lia.
   - simpl. lia.
 Qed.
 
@@ -1391,10 +1668,10 @@ Proof.
 Qed.
 
 Theorem errors_bounded cf h a s :
-  (errors_in (trace_of cf h) a s + count_gs a s (st_pend (state_of cf h)) <= sends_with_serial h a s)%nat.
+  (errors_in (trace_of cf h) a s + count_gs a s (st_pend (state_of cf h)) + hcount a s (st_held (state_of cf h)) <= sends_with_serial h a s)%nat.
 Proof.
   induction h as [|e h IH] using rev_ind.
-  - simpl. unfold errors_in, count_gs. simpl. lia.
+  - simpl. unfold errors_in, count_gs, hcount. simpl. lia.
   - unfold trace_of, state_of. rewrite run_snoc. cbn [fst snd]. fold (trace_of cf h).
     rewrite errors_cons, sends_snoc. pose proof (errors_step cf (state_of cf h) e a s). lia.
 Qed.
@@ -1481,7 +1758,7 @@ Qed.
 Theorem refused_leaves_no_slot cf st c m st' o :
   m_rserial m = 0 -> dispatch cf st c m = (st', o) -> (forall x, fwd_to o x = false) -> st_pend st' = st_pend st.
 Proof.
-  intros Hr. unfold dispatch. destruct (resolve st (m_dest m)) as [r|]; [|intros H; inversion H; auto].
+  intros Hr. unfold dispatch, deliver. destruct (resolve st (m_dest m)) as [r|]; [|pose proof (no_owner_props cf st c m) as NP; destruct (no_owner cf st c m) as [stn on]; cbn [fst snd] in NP; destruct NP as (N1 & N2 & N3 & N4 & N5 & N6 & N7 & N8); intros H; inversion H; subst; auto].
   destruct ((0 <? m_nfds m) && negb (conn_fds st r)); [intros H; inversion H; auto|].
   unfold check_security_policy. rewrite Hr. cbn [N.eqb].
   destruct (negb (can_send cf m false)); [intros H; inversion H; auto|].
